@@ -24,6 +24,8 @@ from common import g_list, g_nat, g_bool
 TRUSTED = [
     "filelock.SoftFileLock: exclusive create (O_CREAT|O_EXCL) is atomic; threads of one process contend through the "
     "lock file exactly as processes do (stale-owner breaking never triggers while the owner lives)",
+    "a bounded lock wait (acquire with a finite timeout) may expire at any failed attempt, and toasty.pyramid's view of the "
+    "clock (time.time / monotonic / sleep) may then have advanced by any amount: holders can stall arbitrarily long",
     "the injected Partial window (truncated file between WBegin and WEnd) stands for an in-place write in progress",
 ]
 ASSUMPTIONS = ["updaters touch the tile only through PyramidIO.update_image",
@@ -142,13 +144,37 @@ def one_case(rng, quick):
     orig_write = PyramidIO.write_image
     errors = []
     attempts = []
+    timeouts_raised = []
+    vclock = [0.0]                 # virtual time offset seen by toasty.pyramid (waits may last arbitrarily long)
+    import time as _real_time
+    import toasty.pyramid as _tp
+
+    class _VTime:
+        def __getattr__(self, nm):
+            return getattr(_real_time, nm)
+
+        def time(self):
+            return _real_time.time() + vclock[0]
+
+        def monotonic(self):
+            return _real_time.monotonic() + vclock[0]
+
+        def sleep(self, x):
+            vclock[0] += max(float(x), 0.0)
+    orig_time_mod = getattr(_tp, "time", None)
 
     def run(sched):
         def sched_lock_class(orig):
             """Scheduler-driven variant of one of filelock's lock classes (whichever flavour
             update_image picks, its acquire becomes a sequence of single non-blocking attempts)."""
             class SchedLock(orig):
-                def acquire(self, *a, **kw):
+                def acquire(self, timeout=None, poll_interval=None, *, poll_intervall=None, blocking=None,
+                            cancel_check=None):
+                    # a bounded wait may expire: any amount of time may pass while another
+                    # updater holds the lock (a stalled process, a hung file server)
+                    eff = self.timeout if timeout is None else timeout
+                    nonblocking = blocking is False
+                    finite = nonblocking or (eff is not None and eff >= 0)
                     while True:
                         lf = self.lock_file
                         sched.custom_sync("TryAcq", stutter=lambda: os.path.exists(lf))
@@ -158,6 +184,10 @@ def one_case(rng, quick):
                             return r
                         except filelock.Timeout:
                             attempts.append((sched.me().name, False))
+                            if finite and (nonblocking or rng.random() < 0.4):
+                                vclock[0] += max(eff or 0, 0) * (1.0 + 2.0 * rng.random()) + rng.choice((0.0, 0.0, 3600.0))
+                                timeouts_raised.append(sched.me().name)
+                                raise
 
                 def release(self, force=False):
                     # __del__ calls release() again on an already released lock: no sync point then
@@ -235,9 +265,13 @@ def one_case(rng, quick):
 
     sink = io.StringIO()
     try:
+        if orig_time_mod is not None:
+            _tp.time = _VTime()
         with contextlib.redirect_stdout(sink), contextlib.redirect_stderr(sink):
             outcome, val, S = detsched.run_under((), run, chooser=chooser, pass_sched=True)
     finally:
+        if orig_time_mod is not None:
+            _tp.time = orig_time_mod
         for nm, cls in orig_locks.items():
             setattr(filelock, nm, cls)
         PyramidIO.read_image = orig_read
@@ -268,7 +302,7 @@ def one_case(rng, quick):
     locks_left = [f for _d, _s, fl in os.walk(base) for f in fl if f.endswith(".lock")]
     return dict(k=k, fmt=fmt, present=present, overlap=overlap, mixed=mixed_format_arg, prelude=prelude, outcome=outcome,
                 trace=trace, order=order, errors=errors, pix_ok=pix_ok, contrib_ok=contrib_ok,
-                locks_left=locks_left, exits=[S.actors[f"W{u}"].exitcode for u in range(k)], mode=mode, rects=rects)
+                bounded_waits_expired=len(timeouts_raised), locks_left=locks_left, exits=[S.actors[f"W{u}"].exitcode for u in range(k)], mode=mode, rects=rects)
 
 
 def g_case(r):
